@@ -69,6 +69,9 @@ type Dev struct {
 
 	// scheduling hook (C17)
 	OnRead func(off int64, n int)
+	// OnReadDone is called after the bytes have been copied into the caller's buffer (a second scheduling point: the
+	// caller may be descheduled between the arrival of the data and its use)
+	OnReadDone func(off int64, n int)
 
 	// fail all writes (a medium that refuses)
 	FailWrites bool
@@ -138,8 +141,12 @@ func (d *Dev) ReadAt(p []byte, off int64) (int, error) {
 	}
 	d.mu.Unlock()
 	d.mu.RLock()
-	defer d.mu.RUnlock()
-	return d.readAtLocked(p, off)
+	n, err := d.readAtLocked(p, off)
+	d.mu.RUnlock()
+	if d.OnReadDone != nil {
+		d.OnReadDone(off, len(p))
+	}
+	return n, err
 }
 
 func (d *Dev) readAtLocked(p []byte, off int64) (int, error) {
